@@ -2,6 +2,8 @@ mod outbound;
 mod session;
 
 pub use session::{Connection, Session};
+#[cfg(feature = "verif-hooks")]
+pub use session::VerifRuntime;
 
 use crate::{
     Properties, QoS, ResourceError, Retain,
